@@ -10,8 +10,10 @@ from collections import OrderedDict
 
 
 class Loop(object):
-    def __init__(self, invariants=(), modifies=(), locals=None, note=''):
+    def __init__(self, invariants=(), modifies=(), locals=None, note='', steps=()):
         self.invariants = list(invariants)
+        # step contract: two-state clauses over one arbitrary iteration; old(e) is e at the start of the iteration
+        self.steps = list(steps)
         self.modifies = list(modifies)       # location specs havocked by the loop cut
         self.locals = dict(locals or {})     # types of locals first assigned inside the loop
         self.note = note
